@@ -65,7 +65,14 @@ EXPRS1 = ["{v}", "2 * {v}", "{v} + 1.0", "-{v}", "abs({v}) + 0.5", "{v} * {v}", 
           "max({v} + 0.5, 1.0)", "abs(0.5 + {v} * 2.0)", "min(1.0 + {v}, {v} * 2.0)", "{v} if 0.5 + {v} > 1.0 else 2.0 * {v}"]
 EXPRS2 = ["{v} + {u}", "{v} * {u}", "{v} - {u}", "{u} * 2 + {v}", "min({v}, {u})", "{v} if {v} > {u} else {u}",
           "({v} + {u}) * 0.5", "{v} + {u} + 0.5", "0.5 + ({v} + {u})", "{v} * {u} * 2.0", "2.0 * ({u} * {v})", "({v} + 1.0) + ({u} + 2.0)", "2.0 * {v} + {u} * 3.0", "({v} + 1.0) * (2.0 + {u})", "{v} * {u} + 1.0", "({v} + {u}) * 2.0",
-          "max({v} + {u}, 0.5)", "abs({u} * {v})", "{v} if {v} + {u} > 1.0 else {u}", "min({u} * {v}, {v} + {u})", "2.0 * max({v} + {u}, 0.5)"]
+          "max({v} + {u}, 0.5)", "abs({u} * {v})", "{v} if {v} + {u} > 1.0 else {u}", "min({u} * {v}, {v} + {u})", "2.0 * max({v} + {u}, 0.5)",
+          # chained comparisons and non-commutative operators between two variables
+          "{v} if {v} == {u} != 1.0 else {u}", "{v} if 0.5 < {v} <= {u} else {u} - {v}", "({v} - {u}) / 2.0", "{v} ** 2 - {u}", "float({v} != {u} == 2.0)"]
+
+
+# expressions whose meaning hinges on operand order / chain structure (targets of the semantic mutation operators)
+EXPRS2_SEMANTIC = ["{v} if {v} == {u} != 1.0 else {u}", "{v} if 0.5 < {v} <= {u} else {u} - {v}", "({v} - {u}) / 2.0", "{v} ** 2 - {u}",
+                   "float({v} != {u} == 2.0)", "min({u} * {v}, {v} + {u})", "max({v} - 1.0, {u}) - {v}", "{u} if {v} < {u} < 3.0 else {v}"]
 
 
 @st.composite
@@ -75,7 +82,14 @@ def var_spec(draw, allow_ctx: bool = True, rich: bool = False):
     if k == "values":
         if rich and draw(st.integers(0, 5)) == 0:  # occasionally a long explicit sequence (interior elements matter too)
             return {"kind": "values", "values": draw(st.lists(st.sampled_from(FLOATS), min_size=7, max_size=10))}
-        return {"kind": "values", "values": draw(st.lists(st.sampled_from(FLOATS), min_size=1, max_size=4 if rich else 3))}
+        spec = {"kind": "values", "values": draw(st.lists(st.sampled_from(FLOATS), min_size=1, max_size=4 if rich else 3))}
+        if rich and draw(st.sampled_from([False] * 6 + [True])):
+            # values that compare equal but differ in type or sign, and non-finite floats, within one sequence
+            spec = {"kind": "values", "values": draw(st.lists(st.sampled_from([1, 1.0, True, 0, 0.0, False, -0.0, 2, 2.0, float("inf"), float("-inf"), 3.0]), min_size=2, max_size=5))}
+        elif rich == "numpy" and draw(st.sampled_from([False] * 7 + [True])):
+            # the sequence arrives as numpy scalars, e.g. list(np.arange(3)) handed to the Python API
+            spec = {"kind": "values", "values": [float(int(x)) for x in spec["values"]], "np": "int64"}
+        return spec
     if k == "ctx":
         return {"kind": "ctx", "key": draw(st.sampled_from(["seq", "t_values", "a"]))}
     scale = draw(st.sampled_from(["linear", "linear", "log"]))
